@@ -63,6 +63,7 @@ func admittedLoop(p *Prog, fd *ast.FuncDecl, s *ast.ForStmt) (string, bool) {
 
 func ruleLoopCensus(c *Ctx) {
 	n, nRange := 0, 0
+	ppi := newParseInterp(c)
 	for _, fd := range c.P.AllFuncDecls() {
 		pk := c.P.pkgOf[fd]
 		info := pk.TypesInfo
@@ -77,7 +78,7 @@ func ruleLoopCensus(c *Ctx) {
 				ord++
 				n++
 				desc := fmt.Sprintf("for-loop #%d", ord)
-				if isLexParse && loopTouchesStream(c.P, info, s) {
+				if isLexParse && (loopTouchesStream(c.P, info, s) || (recvTypeName(fd) == "Parser" && ((s.Cond != nil && ppi.readsCurrent(s.Cond, 0)) || ppi.mutates(s.Body, 0)))) {
 					c.ok("LOOP-CENSUS", fname, desc, s.Pos(), "scanner/parser loop: covered by the progress interpreters (L-PROGRESS / P-PROGRESS)")
 					return true
 				}
